@@ -15,7 +15,7 @@ Local Open Scope Z_scope.
    state is exactly the state after evaluating e: no later expression runs. *)
 Theorem C06_return_ends_program :
   forall F binop (pre : list expr) (C : ctx) (post : list expr) (e : expr) (s s0 s1 : state) (v : value) (s2 : state),
-  seq F binop pre s = Some s0 -> reach F binop C s0 = Some s1 -> eval F binop e s1 = (inl v, s2) ->
+  root_ok s -> seq F binop pre (rooted s) = Some s0 -> reach F binop C s0 = Some s1 -> eval F binop e s1 = (inl v, s2) ->
   run F binop (pre ++ plug C (EReturn e) :: post) s = (Success v, s2).
 Proof. exact return_ends_program. Qed.
 Print Assumptions C06_return_ends_program.
@@ -68,8 +68,8 @@ Example C06_example :
              (CErrL (CCall (nm "int") [] (CArr [ELit (VInt 0)] (CAssignInf (TVar (hx "78") []) TNoop CHole (VInt 0))
                        [EAssign (TExt PEvent [SField (hx "71")]) (ELit (VInt 2))]) []) (ELit (VInt 3)))
              [EAssign (TExt PEvent [SField (hx "72")]) (ELit (VInt 4))] in
-  let s := mkState [] (VObj []) (VObj []) in
+  let s := st0 [] (VObj []) (VObj []) in
   reach F_inst binop_inst C s <> None /\
-  run F_inst binop_inst [plug C (EReturn (ELit (VInt 9)))] s =
-    (Success (VInt 9), mkState [] (VObj [(hx "70", VInt 1)]) (VObj [])).
+  run_core [plug C (EReturn (ELit (VInt 9)))] s =
+    (Success (VInt 9), [], VObj [(hx "70", VInt 1)], VObj []).
 Proof. vm_compute. split; [discriminate|reflexivity]. Qed.
